@@ -657,7 +657,16 @@ type c14Resp struct {
 	body  string
 }
 
-func (wd *c14World) post(path string, body []byte) c14Resp {
+// c14Panic is the pseudo status code of a request whose handler panicked
+// (net/http would drop the connection); the oracles never accept it.
+const c14Panic = 599
+
+func (wd *c14World) post(path string, body []byte) (resp c14Resp) {
+	defer func() {
+		if p := recover(); p != nil {
+			resp = c14Resp{code: c14Panic, body: fmt.Sprintf("handler panicked: %v", p)}
+		}
+	}()
 	req := httptest.NewRequest("POST", path, bytes.NewReader(body))
 	rec := httptest.NewRecorder()
 	wd.h.ServeHTTP(rec, req)
